@@ -174,7 +174,9 @@ class Var:
     expr = None
 
     def __init__(self, args, fmt='s', encoding=None):
-        if args[:4] == 'var ':
+        if args[:3] == 'var' and args[3:4] and args[3:4] <= ' ':
+            # the legacy explicit spelling "var name ...": whatever
+            # white space follows (parse_params splits on all of it)
             args = args[4:]
         args = parse_params(args, name='', lower=1, upper=1, expr='',
                             capitalize=1, spacify=1, null='', fmt='s',
